@@ -23,6 +23,8 @@ pub trait Elem: num_traits::Num + PartialOrd + num_traits::NumCast + Copy + Debu
     fn from_i(v: i64) -> Self;
     /// a value between a and b (ints: one of them)
     fn between(a: Self, b: Self, t: f64) -> Self;
+    /// -0.0 for floats, 0 for integers
+    fn neg_zero() -> Self;
 }
 macro_rules! elem_f {
     ($t:ty, $n:expr) => {
@@ -38,6 +40,9 @@ macro_rules! elem_f {
             fn between(a: Self, b: Self, t: f64) -> Self {
                 let v = a + (b - a) * (t as $t);
                 if v < a { a } else if v > b { b } else { v }
+            }
+            fn neg_zero() -> Self {
+                -0.0
             }
         }
     };
@@ -55,6 +60,9 @@ macro_rules! elem_i {
             }
             fn between(a: Self, b: Self, t: f64) -> Self {
                 a + (((b - a) as f64) * t) as $t
+            }
+            fn neg_zero() -> Self {
+                0
             }
         }
     };
@@ -107,8 +115,29 @@ fn setup<E: Elem>(src: &mut Src, rank: usize, kind: Kind) -> Setup<E> {
     let total: usize = shape.iter().product();
     let data: Vec<E> = (0..total).map(|_| E::from_i(src.int_in(-50, 50))).collect();
     let nq = 6;
-    let qx = (0..nq).map(|_| E::between(x[0], x[nx - 1], src.unit())).collect();
+    let mut x = x;
+    let mut data = data;
+    let mut qx: Vec<E> = (0..nq).map(|_| E::between(x[0], x[nx - 1], src.unit())).collect();
     let qy = (0..nq).map(|_| E::between(y[0], y[ny - 1], src.unit())).collect();
+    // 1 of 4: a knot at zero that carries -0.0 data on a rising segment, asked for with +0.0, -0.0, +0.0 in adjacent batch
+    // positions (equal queries whose results differ in the sign bit)
+    if src.chance(1, 4) {
+        let z = src.below(nx as u64 - 1) as usize;
+        let off = x[z];
+        for v in x.iter_mut() {
+            *v = *v - off;
+        }
+        let row: usize = shape[1..].iter().product();
+        for l in 0..row {
+            data[z * row + l] = E::neg_zero();
+            data[(z + 1) * row + l] = E::from_i(3 + l as i64);
+        }
+        qx = (0..nq).map(|_| E::between(x[0], x[nx - 1], src.unit())).collect();
+        qx[0] = E::from_i(0);
+        qx[1] = E::neg_zero();
+        qx[2] = E::from_i(0);
+        qx[3] = E::neg_zero();
+    }
     Setup { shape, x, y, data, qx, qy }
 }
 
